@@ -220,6 +220,7 @@ func main() {
 		{"onclick=s1 onmouseover=s1 onfocus=s2 (same script twice on one element)", OpOnclickSameTwice, []string{S1, S1, S2}},
 		{"once h1 {block}", OpOnce1Block, []string{"h:1"}},
 		{"once h2 (fixed component)", OpOnce2Fixed, []string{"h:2"}},
+		{"class={[]KeyValue[CSSClass,bool]{KV(c2,true),KV(c1,false)}}", OpClassKVSlice, []string{C2}},
 	}
 	ops := append([]op{}, base...)
 	// the same uses through wrapper components, child blocks and repeated in one component
@@ -332,9 +333,19 @@ func main() {
 	// like the second (an id- or bit-indexed table has its boundaries there). Each of 300 handles is used three times
 	// in each of two contexts: the body appears exactly once per context.
 	{
+		// handles made in every way a handle can be made: by the constructor, and as zero values (a variable, a
+		// composite literal) that never went through it — each is a handle of its own
 		handles := make([]*templ.OnceHandle, 300)
+		var zeroValues [100]templ.OnceHandle
 		for i := range handles {
-			handles[i] = templ.NewOnceHandle()
+			switch i % 3 {
+			case 0:
+				handles[i] = templ.NewOnceHandle()
+			case 1:
+				handles[i] = &zeroValues[i/3]
+			default:
+				handles[i] = &templ.OnceHandle{}
+			}
 		}
 		body := func(i int) templ.Component {
 			return templ.ComponentFunc(func(ctx context.Context, w io.Writer) error {
